@@ -84,6 +84,9 @@ def vary_span_si(rng, ej, *, allow_gain_mode=True, allow_eol=True, allow_policy=
     span['con_in'] = pick(rng, [0, 0, 0.5, 0.25])
     span['con_out'] = pick(rng, [0, 0, 0.5, 0.3])
     span['max_length'] = pick(rng, [150, 150, 135, 120, 100])
+    if rng.random() < 0.2:
+        # the same limit written in metres (length_units is part of the Span description)
+        span['max_length'], span['length_units'] = span['max_length'] * 1000, 'm'
     span['target_extended_gain'] = pick(rng, [2.5, 2.5, 0, 1])
     if rng.random() < 0.4:
         span['power_slope'] = pick(rng, [0.3, 0.2, 0.33, 0.5])
